@@ -734,9 +734,20 @@ func TestC08Binary(t *testing.T) {
 		defer witness.Close()
 		ts := func() *timestamppb.Timestamp { return timestamppb.Now() }
 		wsSend(witness, &hagallpb.ParticipantJoinRequest{Type: TJoinReq, Timestamp: ts(), RequestId: 1})
-		rx, ok := wsUntil(witness, TJoinResp, 5*time.Second)
+		rx, ok := wsUntil(witness, TJoinResp, 20*time.Second)
 		if !ok {
-			rt.Skip("witness join not answered")
+			// slow machine, or are admitted connections not served at all? the same process must
+			// answer plain HTTP promptly while the join has been waiting for 20 s
+			t0 := time.Now()
+			resp, err := http.Get("http://" + p.addr + "/version")
+			if err == nil {
+				resp.Body.Close()
+			}
+			if err == nil && time.Since(t0) < time.Second && p.alive() {
+				col.Violations++
+				rt.Fatalf("C08 violated: the join request of an admitted connection has not been answered for 20 s although the server answers HTTP within %v", time.Since(t0).Round(time.Millisecond))
+			}
+			rt.Skip("witness join not answered and the server is slow: inconclusive")
 		}
 		sid := rx[len(rx)-1].M.(*hagallpb.ParticipantJoinResponse).SessionId
 		h, htcp, err := p.dialRaw([]string{"header"}, tok)
